@@ -393,3 +393,50 @@ def rawLeaves (N R : List String) : PTree :=
   .node .and (N.map PTree.leaf ++ R.map fun r => PTree.node .xor [.tau, .leaf r])
 
 end O2P.Gate
+
+/-! ### the hypotheses of the whole-tree OR-inference theorem (`or_inference_all_sound`), as executable tests -/
+namespace O2P.Gate
+
+-- `canEmpty`: a sound test for "can produce the empty set"
+mutual
+def canEmpty : PTree → Bool
+  | .leaf _ => false
+  | .tau => true
+  | .node .xor cs => canEmptyAny cs
+  | .node .and cs => canEmptyAll cs
+  | .node .or cs => canEmptyAny cs
+  | .node .other _ => false
+def canEmptyAny : List PTree → Bool
+  | [] => false
+  | c :: cs => canEmpty c || canEmptyAny cs
+def canEmptyAll : List PTree → Bool
+  | [] => true
+  | c :: cs => canEmpty c && canEmptyAll cs
+end
+
+/-- labels that are event names (the label of a tau leaf is "") -/
+def NE (l : List String) : List String := l.filter (· != "")
+
+/-- at a parallel node with optional branches: no mandatory child can produce the empty set, mandatory children share
+no label with the optional branches, and (below the top: `strict`) there is a mandatory child -/
+def wfAnd (strict : Bool) (cs : List PTree) : Bool :=
+  (classify cs).1.isEmpty ||
+    ((classify cs).2.all (fun c => !canEmpty c) &&
+     disjointS (PTree.labelsL (classify cs).2) (PTree.labelsL ((classify cs).1.flatMap grandchildrenOf)) &&
+     (!strict || !(classify cs).2.isEmpty))
+
+mutual
+def wfT (strict : Bool) : PTree → Bool
+  | .leaf _ => true
+  | .tau => true
+  | .node .and cs => wfAnd strict cs && wfL cs
+  | .node .xor cs => wfL cs
+  | .node .or cs => wfL cs
+  | .node .other cs => wfL cs
+def wfL : List PTree → Bool
+  | [] => true
+  | c :: cs => wfT true c && wfL cs
+end
+
+end O2P.Gate
+
